@@ -1085,15 +1085,17 @@ pub fn get_limit(params: &EntityParams, prepared_query: &mut SingleQuery) -> Str
     }
 
     if let Some(skip) = &params.skip {
+        //OFFSET is only valid after a LIMIT clause
+        let limit = if query.is_empty() { "LIMIT -1" } else { "" };
         match skip {
             FieldValue::Variable(var) => {
                 let vars = prepared_query.add_param(String::from(var), false);
-                query.push_str(&format!(" OFFSET {}", vars));
+                query.push_str(&format!("{} OFFSET {}", limit, vars));
             }
             FieldValue::Value(val) => {
                 let val = val.as_i64().unwrap();
                 if val != 0 {
-                    query.push_str(&format!(" OFFSET {}", val));
+                    query.push_str(&format!("{} OFFSET {}", limit, val));
                 }
             }
         }
